@@ -157,8 +157,8 @@ pub fn gen_plain(dna: &mut Dna, size_weights: &[u32; 4]) -> Vec<u8> {
     gen_plain_sized(dna, target)
 }
 
-pub const FLAVOUR_NAMES: [&str; 9] =
-    ["all-kinds", "text-like", "incompressible", "runs", "tiny-alphabet", "mixed-binary", "archive-like", "regime-change", "steep-statistics"];
+pub const FLAVOUR_NAMES: [&str; 10] =
+    ["all-kinds", "text-like", "incompressible", "runs", "tiny-alphabet", "mixed-binary", "archive-like", "regime-change", "steep-statistics", "adjacent-hash-collisions"];
 
 pub fn gen_plain_sized(dna: &mut Dna, target: usize) -> Vec<u8> {
     gen_plain_sized_labeled(dna, target).0
@@ -166,7 +166,7 @@ pub fn gen_plain_sized(dna: &mut Dna, target: usize) -> Vec<u8> {
 
 /// the plaintext and the name of its flavour (chosen from the DNA before anything else)
 pub fn gen_plain_sized_labeled(dna: &mut Dna, target: usize) -> (Vec<u8>, &'static str) {
-    let flavour = dna.weighted(&[25, 21, 13, 8, 8, 9, 8, 8, 5]);
+    let flavour = dna.weighted(&[25, 21, 13, 8, 8, 9, 8, 8, 5, 5]);
     (gen_plain_flavour(dna, target, flavour), FLAVOUR_NAMES[flavour])
 }
 
@@ -181,6 +181,9 @@ fn gen_plain_flavour(dna: &mut Dna, target: usize, flavour: usize) -> Vec<u8> {
     }
     if flavour == 8 {
         return gen_steep_statistics(dna, target);
+    }
+    if flavour == 9 {
+        return gen_hash_collisions(dna, target);
     }
     let kinds: &[usize] = match flavour {
         0 => &[0, 1, 2, 3, 4, 5, 6, 7],
@@ -398,5 +401,83 @@ pub fn gen_block_aligned_steep(dna: &mut Dna, mem_level: u32) -> Vec<u8> {
             out.swap(start + i, start + j);
         }
     }
+    out
+}
+
+/// "adjacent hash collisions": text over a small vocabulary in which many words begin with
+/// bytes whose hash window at position p and the DIFFERENT window at p+1 fall into the same
+/// bucket of a compressor's match-finder hash (zlib's rolling 3-byte hash with shift 5 / 15
+/// bits; the multiplicative 4-byte hashes of libdeflate and zlib-ng). Words repeat often, so the
+/// chains of those buckets are long. Compressors and any model of them must then tell "same
+/// bucket" from "same bytes" at adjacent positions, e.g. in a lazy look-ahead.
+fn gen_hash_collisions(dna: &mut Dna, target: usize) -> Vec<u8> {
+    let mut mix = Mix::new(dna.u64());
+    let mut out = Vec::with_capacity(target);
+    let printable = dna.chance(50);
+    let short_words = dna.chance(60);
+    let pick = |m: &mut Mix| -> u8 {
+        if printable {
+            b' ' + m.below(95) as u8
+        } else {
+            m.u8()
+        }
+    };
+    let zlib_h = |b: &[u8]| -> u32 { (((b[0] as u32) << 10) ^ ((b[1] as u32) << 5) ^ b[2] as u32) & 0x7fff };
+    let mul_h = |b: &[u8], k: u32| -> u32 { u32::from_le_bytes([b[0], b[1], b[2], b[3]]).wrapping_mul(k) >> 16 };
+    let mut vocab: Vec<Vec<u8>> = vec![];
+    let nwords = dna.range(6, 30);
+    let mut guard = 0u32;
+    while vocab.len() < nwords && guard < 3_000_000 {
+        guard += 1;
+        let kind = vocab.len() % 4;
+        let w: Vec<u8> = (0..5).map(|_| pick(&mut mix)).collect();
+        let hit = match kind {
+            0 => zlib_h(&w[0..3]) == zlib_h(&w[1..4]) && w[0..3] != w[1..4],
+            1 => mul_h(&w[0..4], 0x1E35A7BD) == mul_h(&w[1..5], 0x1E35A7BD) && w[0..4] != w[1..5],
+            2 => mul_h(&w[0..4], 2654435761) == mul_h(&w[1..5], 2654435761) && w[0..4] != w[1..5],
+            _ => true, // an ordinary word
+        };
+        if hit {
+            let mut word = w.clone();
+            let maxsuf = if short_words { 7 } else { 28 };
+            for _ in 0..mix.range(0, maxsuf) {
+                word.push(pick(&mut mix));
+            }
+            vocab.push(word);
+            if kind != 3 && mix.chance(50) {
+                // a word that contains only the SECOND window of the colliding pair
+                let mut w2 = vec![pick(&mut mix)];
+                w2.extend_from_slice(&w[1..]);
+                for _ in 0..mix.range(1, maxsuf) {
+                    w2.push(pick(&mut mix));
+                }
+                vocab.push(w2);
+            }
+        }
+    }
+    if vocab.is_empty() {
+        vocab.push(b"fallback".to_vec());
+    }
+    while out.len() < target {
+        let w = &vocab[mix.below(vocab.len())];
+        // sometimes only a prefix of the word (matches of different lengths at the same start)
+        let n = if mix.chance(15) { mix.range(3.min(w.len()), w.len()) } else { w.len() };
+        out.extend_from_slice(&w[..n]);
+        match mix.below(4) {
+            0 | 1 => out.push(b' '),
+            2 => out.push(pick(&mut mix)),
+            _ => {}
+        }
+        if out.len() > 2000 && mix.below(400) == 0 {
+            // a long repeat that is repeated again, shifted (references into the inside of
+            // long matches)
+            let b = mix.below(out.len() - 1500);
+            let tmp = out[b..b + 900].to_vec();
+            out.extend_from_slice(&tmp);
+            let tmp2 = out[b + 77..b + 800].to_vec();
+            out.extend_from_slice(&tmp2);
+        }
+    }
+    out.truncate(target);
     out
 }
